@@ -8,11 +8,13 @@ All theorems quantify over ARBITRARY reachable states, topologies (`Topo.WF`) an
 (lists of labels chosen by an adversary: deliveries, worker activity, client calls, further
 crashes), by induction over the transition function.
 
-`ReachM t s`: `s` is reachable by a run in which no OUTGOING THREAD observes
-ConnectionResetError (`Label.outReset`).  With that transition the full statement is false
-of the code (the reaction runs on the outgoing thread, `handle_shutdown` dies in
-`self.outgoing_thread.join()` and clients are never closed): `C14_outgoing_reset_*` below are
-the kernel-checked witnesses; the theorems that need the hypothesis carry it visibly.
+`Reach t s`: `s` is reachable from the initial state by any list of transitions.
+
+(Until `fix:` 9e98cc2 the outgoing thread reacted to a failed send by running
+`handle_disconnect` itself; `handle_shutdown` then died in `self.outgoing_thread.join()` and
+clients were never closed.  The model had that transition and a kernel-checked hang witness;
+with the fix a failed send only drops the item (`Label.flushDrop`) and the theorems hold
+without any side condition.)
 
 Fairness is made explicit instead of assumed: a *critical delivery* (`isCrit`) is a live boss
 reading the connection of a gone employee on the path from the crashed node to the server.
@@ -26,13 +28,12 @@ delivering; once `B(s) + growth` critical deliveries happened the server is down
 -/
 namespace BqVerif.Crash
 
-/-- reachable from the initial state without an outgoing-thread reset -/
-def ReachM (t : Topo) (s : State) : Prop :=
-  ∃ ls : List Label, (∀ l ∈ ls, l.isOutReset = false) ∧ run t init ls = some s
+/-- reachable from the initial state -/
+def Reach (t : Topo) (s : State) : Prop := ∃ ls : List Label, run t init ls = some s
 
-theorem ReachM.inv {t : Topo} (wf : t.WF) {s : State} (h : ReachM t s) : Inv t s := by
-  obtain ⟨ls, hno, hr⟩ := h
-  exact run_inv wf ls init s (inv_init t) hno hr
+theorem Reach.inv {t : Topo} (wf : t.WF) {s : State} (h : Reach t s) : Inv t s := by
+  obtain ⟨ls, hr⟩ := h
+  exact run_inv wf ls init s (inv_init t) hr
 
 /-- what "the runtime reacted" means at node `p` (server: `p = 0`) -/
 def ShutDone (t : Topo) (s : State) (p : Nat) : Prop :=
@@ -42,11 +43,11 @@ def ShutDone (t : Topo) (s : State) (p : Nat) : Prop :=
 
 /-- **the step bound.**  Along any schedule `ls` from a reachable state, the critical
 deliveries `c` taken and the potential left satisfy `potential(final) + c ≤ B(s) + growth`. -/
-theorem C14_bounded {t : Topo} (wf : t.WF) {s sf : State} (hs : ReachM t s) (d : Nat)
-    (ls : List Label) (hno : ∀ l ∈ ls, l.isOutReset = false) {c g : Nat}
+theorem C14_bounded {t : Topo} (wf : t.WF) {s sf : State} (hs : Reach t s) (d : Nat)
+    (ls : List Label) {c g : Nat}
     (h : runCount t d s ls = some (sf, c, g)) :
     potential t sf d + c ≤ potential t s d + g :=
-  (runCount_bound wf d ls s sf c g (hs.inv wf) hno h).1
+  (runCount_bound wf d ls s sf c g (hs.inv wf) h).1
 
 /-- **shutdown propagates.**  `d` a crashed (or otherwise gone) worker or manager.
 (a) as long as the server still runs, a critical delivery is enabled;
@@ -54,15 +55,15 @@ theorem C14_bounded {t : Topo} (wf : t.WF) {s sf : State} (hs : ReachM t s) (d :
 has `running = False`, every client connection is closed, every employee of the server was
 sent SHUTDOWN (or is gone itself);
 (c) every node that stopped, at any time, satisfies `ShutDone`. -/
-theorem C14_shutdown_propagates {t : Topo} (wf : t.WF) {s sf : State} (hs : ReachM t s) {d : Nat}
+theorem C14_shutdown_propagates {t : Topo} (wf : t.WF) {s sf : State} (hs : Reach t s) {d : Nat}
     (hd0 : d ≠ 0) (hdn : d < t.n) (hg : s.gone d = true)
-    (ls : List Label) (hno : ∀ l ∈ ls, l.isOutReset = false) {c g : Nat}
+    (ls : List Label) {c g : Nat}
     (h : runCount t d s ls = some (sf, c, g)) :
     (sf.gone 0 = false → ∃ p e s', step t sf (.recvEmp p e [] false) = some s' ∧
         isCrit t sf d (.recvEmp p e [] false) = true) ∧
     (potential t s d + g ≤ c → ShutDone t sf 0) ∧
     (∀ p, sf.running p = false → ShutDone t sf p) := by
-  obtain ⟨hb, hi, hgone⟩ := runCount_bound wf d ls s sf c g (hs.inv wf) hno h
+  obtain ⟨hb, hi, hgone⟩ := runCount_bound wf d ls s sf c g (hs.inv wf) h
   have hprog : sf.gone 0 = false → ∃ p e s', step t sf (.recvEmp p e [] false) = some s' ∧
       isCrit t sf d (.recvEmp p e [] false) = true :=
     fun h0 => progress wf hi hd0 hdn (hgone d hg) h0
@@ -81,15 +82,13 @@ theorem C14_shutdown_propagates {t : Topo} (wf : t.WF) {s sf : State} (hs : Reac
       simp only [State.view] at this
       simp [State.gone, this, hr]
     obtain ⟨p, e, s', hst, hcr⟩ := hprog h0
-    have hw : ∀ n c, Label.recvEmp p e [] false ≠ .wake n c := fun _ _ x => by cases x
-    have := potential_step d hst hw
+    have := potential_step d hst
     rw [hcr] at this
     simp only [b2n, if_true, growth] at this
     omega
 
 /-- **no RESULT after the shutdown**: once the server has `running = False` (in particular
-once it processed the EOF), no transition of any kind - not even the half-finished shutdown of
-the outgoing-thread defect - appends anything to a server -> client channel. -/
+once it processed the EOF), no transition of any kind appends anything to a server -> client channel. -/
 theorem C14_no_result_after_shutdown {t : Topo} {s sf : State} (hr : s.running 0 = false)
     (ls : List Label) (h : run t s ls = some sf) :
     sf.running 0 = false ∧ ∀ c, ∃ consumed, s.toClient c = consumed ++ sf.toClient c :=
@@ -98,7 +97,7 @@ theorem C14_no_result_after_shutdown {t : Topo} {s sf : State} (hr : s.running 0
 /-- **the client raises.**  After the server stopped: a client blocked in
 `result/status/cancel` is woken by the EOF and its call raises RuntimeError; a client that
 later enters `submit/result/status/cancel` raises without sending anything. -/
-theorem C14_client_raises {t : Topo} (wf : t.WF) {s : State} (hs : ReachM t s)
+theorem C14_client_raises {t : Topo} (wf : t.WF) {s : State} (hs : Reach t s)
     (hr : s.running 0 = false) (c : Nat) :
     (s.cwait c = true → ∃ s', step t s (.cwake c) = some s' ∧ s'.cwait c = false ∧
         s'.cconn c = false ∧ s'.clog = s.clog ++ [.raised c]) ∧
@@ -110,25 +109,22 @@ theorem C14_client_raises {t : Topo} (wf : t.WF) {s : State} (hs : ReachM t s)
 /-- **a second crash changes nothing**: it keeps the invariant, does not raise the bound of
 the reaction to the first crash, and touches nothing a client or the server's tables can
 see; in particular a finished reaction stays finished. -/
-theorem C14_second_crash {t : Topo} (_wf : t.WF) {s s' : State} (hs : ReachM t s) {n : Nat} {tr : Bool}
+theorem C14_second_crash {t : Topo} {s s' : State} (hs : Reach t s) {n : Nat} {tr : Bool}
     (h : step t s (.crash n tr) = some s') (d : Nat) :
-    ReachM t s' ∧ potential t s' d ≤ potential t s d ∧
+    Reach t s' ∧ potential t s' d ≤ potential t s d ∧
     s'.running = s.running ∧ s'.copen = s.copen ∧ s'.toClient = s.toClient ∧ s'.cwait = s.cwait ∧
     s'.clog = s.clog ∧ s'.boxes = s.boxes ∧ s'.sentShutdown = s.sentShutdown ∧
     (∀ p, ShutDone t s p → ShutDone t s' p) := by
   have hf := crash_frame (t := t) (s := s) (s' := s') (n := n) (tr := tr) h
   obtain ⟨h1, h2, h3, h4, h5, _, h7, h8, _, h10, h11⟩ := hf
-  have hreach : ReachM t s' := by
-    obtain ⟨ls, hno, hrun⟩ := hs
-    refine ⟨ls ++ [.crash n tr], fun l hl => ?_, ?_⟩
-    · rcases List.mem_append.mp hl with x | x
-      · exact hno l x
-      · simp only [List.mem_singleton] at x; subst x; rfl
-    · rw [run_append ls [.crash n tr] init s hrun]
-      simp only [run]
-      rw [h]
+  have hreach : Reach t s' := by
+    obtain ⟨ls, hrun⟩ := hs
+    refine ⟨ls ++ [.crash n tr], ?_⟩
+    rw [run_append ls [.crash n tr] init s hrun]
+    simp only [run]
+    rw [h]
   have hpot : potential t s' d ≤ potential t s d := by
-    have := potential_step d h (fun _ _ x => by cases x)
+    have := potential_step d h
     simp only [isCrit, growth, b2n] at this
     simpa using this
   refine ⟨hreach, hpot, h1, h2, h3, h4, h5, h7, h8, fun p hp => ?_⟩
@@ -137,8 +133,7 @@ theorem C14_second_crash {t : Topo} (_wf : t.WF) {s s' : State} (hs : ReachM t s
   rcases c e' hc with x | x
   · left; rw [h8]; exact x
   · right
-    have := (step_wle h (fun _ _ y => by cases y)).gone e' x
-    exact this
+    exact (step_wle h).gone e' x
 
 /-! ### non-vacuity: a server, a manager, two workers, one client -/
 
@@ -181,11 +176,11 @@ def demoReact : List Label := [.recvEmp 1 2 [] false, .wrecv 3, .recvEmp 0 1 [] 
 def demoState : State := (run demoTopo init demoRun).getD init
 def demoDown : State := (run demoTopo demoState demoReact).getD init
 
-theorem demo_reach : ReachM demoTopo demoState :=
-  ⟨demoRun, by decide, getD_of_isSome _ _ (by decide)⟩
+theorem demo_reach : Reach demoTopo demoState :=
+  ⟨demoRun, getD_of_isSome _ _ (by decide)⟩
 
-theorem demoDown_reach : ReachM demoTopo demoDown :=
-  ⟨demoRun ++ demoReact, by decide, by
+theorem demoDown_reach : Reach demoTopo demoDown :=
+  ⟨demoRun ++ demoReact, by
     rw [run_append demoRun demoReact init demoState (getD_of_isSome _ _ (by decide))]
     exact getD_of_isSome _ _ (by decide)⟩
 
@@ -196,7 +191,7 @@ example : (runCount demoTopo 2 demoState demoReact).map
     some (2, 0, false, false, true) := by decide
 example : ShutDone demoTopo demoDown 0 :=
   ((C14_shutdown_propagates demoTopo_wf demoDown_reach (d := 2) (by decide) (by decide) (by decide) []
-    (by decide) (c := 0) (g := 0) rfl).2.2 0 (by decide))
+    (c := 0) (g := 0) rfl).2.2 0 (by decide))
 -- C14_no_result_after_shutdown / C14_client_raises: the server of `demoDown` is down, the client blocked
 example : demoDown.running 0 = false ∧ demoDown.cwait 0 = true := by decide
 example : (step demoTopo demoDown (.cwake 0)).map (·.clog) = some [.raised 0] := by decide
@@ -204,30 +199,6 @@ example : (step demoTopo demoDown (.cwake 0)).map (·.clog) = some [.raised 0] :
 example : (step demoTopo demoDown (.crash 1 false)).isSome = true := by decide
 
 /-! ### the code's defects, as kernel-checked witnesses -/
-
-/-- **outgoing-thread reset (finding).**  Attached runtime, one worker, one client blocked in
-`result()`.  The worker dies while the server's outgoing thread holds a message for it; the
-thread gets ConnectionResetError, runs `handle_disconnect` itself, `handle_shutdown` raises in
-`self.outgoing_thread.join()`: the server has `running = False`, its workers were shut down,
-but the client connection is still open and the client is still blocked; no transition of the
-server, its threads or the client is enabled any more. -/
-def hangTopo : Topo := Topo.ofList [(0, 0), (0, 2)] true
-
-def hangRun : List Label :=
-  [.ccall 0 (.submit 0), .recvClient 0 [(.emp 1, .other 5)] false, .ccall 0 (.request 0),
-   .recvClient 0 [] false, .crash 1 false, .outReset 0]
-
-def hangState : State := (run hangTopo init hangRun).getD init
-
-theorem C14_outgoing_reset_hang_witness :
-    (run hangTopo init hangRun).isSome = true ∧
-    hangState.running 0 = false ∧ hangState.half 0 = true ∧ hangState.copen 0 = true ∧
-    hangState.cwait 0 = true ∧
-    (step hangTopo hangState (.cwake 0)).isNone = true ∧
-    (step hangTopo hangState (.wake 0 0)).isNone = true ∧
-    (step hangTopo hangState (.flush 0)).isNone = true ∧
-    (step hangTopo hangState (.recvEmp 0 1 [] false)).isNone = true ∧
-    (step hangTopo hangState (.recvClient 0 [] false)).isNone = true := by decide
 
 /-- **orphaned sub-managers (finding).**  server 0 - manager 1 - manager 2 - worker 3.  Manager 1
 is killed.  The server reacts (clients are unblocked), but manager 2 sees EOF on its upstream
